@@ -224,6 +224,11 @@ def check(ctx):
         osz = kwarg(rc[0], "output_size") if len(rc) == 1 else None
         ok = osz is not None and eqv(osz, "builtins.min(abs(k), a.shape[axis])")
         ctx.ob("ALG.topk.output-size", f, f"{fn}: declared length along the axis is min(abs(k), a.shape[axis])", ok, "" if ok else "with abs(k) > n the declared shape is longer than the computed result")
+    # ---------------- arg reductions: a block's global offset is the SUM of the chunk lengths before it
+    argr = mod.func("arg_reduction")
+    off = find("offsets = M_v", argr)
+    ok = len(off) == 1 and eqv(off[0][1]["M_v"], "list(product(*(accumulate(operator.add, bd[:-1], 0) for bd in x.chunks)))")
+    ctx.ob("ABS.arg-offsets.cumulative", argr, "offsets = product of the running sums of x.chunks per axis (accumulate(add, bd[:-1], 0))", ok, "" if ok else "block index times a nominal chunk size is only right for regular chunks: with irregular chunks argmin/argmax return shifted indices")
 
 
 VARIANTS = [
